@@ -25,6 +25,25 @@ fn label(gen: &str, n: usize, stream: u64) -> String {
     format!("c19/{}/{}/{}", gen, n, stream)
 }
 
+/// Scalars (little-endian hex) to be returned by the generator's 64-byte draws, in order.
+fn crafted_rng(seed: u64, gen: &str, n: usize, stream: u64, scalars: &[Scalar]) -> SimRng {
+    let l = label(gen, n, stream);
+    // find the 64-byte draw points from a fault-free execution of the same stream
+    let d = baseline_draws_list(seed, gen, n, stream);
+    let idx: Vec<usize> = (0..d.len()).filter(|&i| d[i] == crate::rng::DrawKind::Fill(64)).collect();
+    let mut f = std::collections::BTreeMap::new();
+    for (k, sc) in scalars.iter().enumerate() {
+        if let Some(&i) = idx.get(k) {
+            let mut b = sc.to_bytes().to_vec();
+            b.extend_from_slice(&[0u8; 32]);
+            f.insert(i, crate::rng::EntropyFault::Bytes(b));
+        }
+    }
+    let mut r = SimRng::with_faults(seed, &l, f);
+    r.budget = 1 << 14;
+    r
+}
+
 fn make_rng(seed: u64, gen: &str, n: usize, stream: u64, fault: &Value) -> SimRng {
     let l = label(gen, n, stream);
     let mut r = if fault.is_null() {
@@ -128,6 +147,68 @@ fn gen_keypair<const N: usize>(o: &mut Outcome, seed: u64, stream: u64, fault: &
             o.violate("signature-with-generated-key-fails", &site, "signature also satisfies the relation on a different message".into());
         }
     }
+}
+
+/// A stream crafted so that the key signs a chosen message with exponent zero
+/// (all y_i = 1, x = -sum m_i): sigma_2 of that signature is the identity, which is a perfectly
+/// valid signature; and the y_i repeat.
+fn gen_keypair_crafted<const N: usize>(o: &mut Outcome, seed: u64, stream: u64) {
+    let site = format!("KeyPair<{}>::new(crafted stream)", N);
+    let mut r2 = SimRng::new(seed, &format!("c19/sign/{}/{}", N, stream));
+    let msg = Message::<N>::random(&mut r2);
+    let mut x = Scalar::zero();
+    for m in msg.iter() {
+        x -= m;
+    }
+    let mut scalars = vec![x];
+    scalars.extend(std::iter::repeat(Scalar::one()).take(N));
+    let mut rng = crafted_rng(seed, "keypair", N, stream, &scalars);
+    let kp = KeyPair::<N>::new(&mut rng);
+    o.events += rng.draws.len() as u64;
+    o.add("fault.entropy_crafted_scalar_draw", rng.faults_fired as u64);
+    let t = roundtrip(o, &site, &kp);
+    if let Some((pk, sk)) = check_keypair_trace(o, &site, &t) {
+        if sk.x != x || sk.ys.iter().any(|y| *y != Scalar::one()) {
+            crate::harness_error("C19: the crafted stream did not produce the intended secret key");
+        }
+        let sig = msg.sign(&mut r2, &kp);
+        if !sig.verify(kp.public_key(), &msg) {
+            o.violate("signature-with-generated-key-fails", &site, "a signature made with the generated key (signing exponent zero for this message) does not verify".into());
+        }
+        let st = atoms::trace(&sig);
+        let s1 = refc::g1(&st.bytes[..48]);
+        let s2: Option<bls12_381::G1Affine> = {
+            let mut b = [0u8; 48];
+            b.copy_from_slice(&st.bytes[48..96]);
+            bls12_381::G1Affine::from_compressed(&b).into()
+        };
+        match s2 {
+            Some(s2) => {
+                if !refc::ps_verify(&pk, &msg[..], &s1, &s2.into()) {
+                    o.violate("signature-with-generated-key-fails", &site, "reference PS relation is false on the signature".into());
+                }
+                if bool::from(s2.is_identity()) {
+                    o.bump("probe.crafted_identity_sigma2");
+                }
+            }
+            None => crate::harness_error("C19: sigma2 does not decode"),
+        }
+    }
+}
+
+fn gen_range_crafted(o: &mut Outcome, seed: u64, stream: u64, digit: u64) {
+    let site = "RangeConstraintParameters::new(crafted stream)";
+    let scalars = vec![-Scalar::from(digit), Scalar::one()];
+    let mut rng = crafted_rng(seed, "range", 0, stream, &scalars);
+    let rp = RangeConstraintParameters::new(&mut rng);
+    o.events += rng.draws.len() as u64;
+    o.add("fault.entropy_crafted_scalar_draw", rng.faults_fired as u64);
+    // cannot use roundtrip(): a digit signature with identity sigma2 is fine, but check decode too
+    let t = roundtrip(o, site, &rp);
+    if let Err(e) = rp.validate() {
+        o.violate("range-parameters-fail-validate", site, format!("key x = -{}, y = 1: {}", digit, e));
+    }
+    let _ = t;
 }
 
 fn check_pedersen<G: Group<Scalar = Scalar>>(o: &mut Outcome, site: &str, t: &Trace, g1like: bool) {
@@ -236,6 +317,10 @@ fn gen_merchant(o: &mut Outcome, seed: u64, stream: u64, fault: &Value) {
 }
 
 fn baseline_draws(seed: u64, gen: &str, n: usize, stream: u64) -> usize {
+    baseline_draws_list(seed, gen, n, stream).len()
+}
+
+fn baseline_draws_list(seed: u64, gen: &str, n: usize, stream: u64) -> Vec<crate::rng::DrawKind> {
     let mut rng = make_rng(seed, gen, n, stream, &Value::Null);
     macro_rules! kp {
         ($($n:literal),*) => { match n { $($n => { let _ = KeyPair::<$n>::new(&mut rng); })* _ => crate::harness_error("bad N") } };
@@ -258,7 +343,7 @@ fn baseline_draws(seed: u64, gen: &str, n: usize, stream: u64) -> usize {
         }
         _ => crate::harness_error("bad generator"),
     }
-    rng.draws.len()
+    rng.draws
 }
 
 impl Prop for C19 {
@@ -287,6 +372,12 @@ impl Prop for C19 {
                         }
                     }
                 }
+            }
+            for n in NS {
+                v.push(json!({"gen": "keypair-crafted", "n": n, "seed": seed, "stream": stream, "fault": {"craft": "signing-exponent-zero"}, "baseline": 0}));
+            }
+            for d in [0u64, 1, 5, 127] {
+                v.push(json!({"gen": "range-crafted", "n": d, "seed": seed, "stream": stream, "fault": {"craft": "x=-d,y=1"}, "baseline": 0}));
             }
             // range parameters: every draw of the key pair, and a share of the signature draws
             let kd = baseline_draws(seed, "keypair", 1, stream); // same prefix length class as the embedded key pair
@@ -355,6 +446,16 @@ impl Prop for C19 {
             "pedersen-g1" => disp!(gen_pedersen_g1; 1, 2, 3, 5, 8, 13),
             "pedersen-g2" => disp!(gen_pedersen_g2; 1, 2, 3, 5, 8, 13),
             "range" => gen_range(&mut o, seed, stream, fault),
+            "keypair-crafted" => match n {
+                1 => gen_keypair_crafted::<1>(&mut o, seed, stream),
+                2 => gen_keypair_crafted::<2>(&mut o, seed, stream),
+                3 => gen_keypair_crafted::<3>(&mut o, seed, stream),
+                5 => gen_keypair_crafted::<5>(&mut o, seed, stream),
+                8 => gen_keypair_crafted::<8>(&mut o, seed, stream),
+                13 => gen_keypair_crafted::<13>(&mut o, seed, stream),
+                _ => crate::harness_error("bad N"),
+            },
+            "range-crafted" => gen_range_crafted(&mut o, seed, stream, n as u64),
             "merchant" => gen_merchant(&mut o, seed, stream, fault),
             _ => crate::harness_error("bad generator in case"),
         }
@@ -386,7 +487,7 @@ impl Prop for C19 {
         v
     }
     fn rule(&self) -> String {
-        "one case = one generator (KeyPair<N>, PedersenParameters<G1|G2,N> for N in {1,2,3,5,8,13}, RangeConstraintParameters, merchant::Config) executed on a keyed entropy stream with either no fault or an all-zero window of width 1..3 starting at one recorded draw index (every index for keys and Pedersen parameters; every key-pair draw plus a share of the signature draws for range parameters and merchant configs). Distinct = distinct (generator, N, stream, draw index, width); non-trivial = a fault window was injected".into()
+        "one case = one generator (KeyPair<N>, PedersenParameters<G1|G2,N> for N in {1,2,3,5,8,13}, RangeConstraintParameters, merchant::Config) executed on a keyed entropy stream with either no fault or an all-zero window of width 1..3 starting at one recorded draw index (every index for keys and Pedersen parameters; every key-pair draw plus a share of the signature draws for range parameters and merchant configs). Plus crafted (non-zero) scalar streams: all y_i = 1 and x = -sum m_i for the message signed next (signing exponent zero: sigma_2 is the identity, still a valid signature; repeated y_i), and x = -d, y = 1 for range parameters (digit d). Distinct = distinct (generator, N, stream, draw index, width); non-trivial = a fault was injected".into()
     }
     fn assumptions(&self) -> Vec<String> {
         vec![
@@ -396,6 +497,6 @@ impl Prop for C19 {
         ]
     }
     fn required_probes(&self, _tier: Tier) -> Vec<&'static str> {
-        vec!["probe.zero_scalar_retry_taken", "fault.entropy_zero_draw"]
+        vec!["probe.zero_scalar_retry_taken", "fault.entropy_zero_draw", "fault.entropy_crafted_scalar_draw", "probe.crafted_identity_sigma2"]
     }
 }
